@@ -114,7 +114,7 @@ func decoderSites(repo string, sps []fileSpec) []site {
 			}
 		}
 		if !found {
-			refuse("no yaml decoder construction site found in %s:%s for the %s loader", sp.SrcFile, sp.SrcFunc, sp.Name)
+			softRefuse("no yaml decoder construction site found in %s:%s for the %s loader", sp.SrcFile, sp.SrcFunc, sp.Name)
 		}
 	}
 	return sites
@@ -148,10 +148,14 @@ func sitesIn(file string, fd *ast.FuncDecl, alias string) []site {
 			if len(x.Lhs) == 1 && len(x.Rhs) == 1 && isPkgCall(x.Rhs[0], alias, "NewDecoder") {
 				id, ok := x.Lhs[0].(*ast.Ident)
 				if !ok {
-					refuse("%s:%s: decoder assigned to a non-identifier", file, name)
+					softRefuse("%s:%s: decoder assigned to a non-identifier", file, name)
+					out = append(out, site{File: file, Func: name, KnownFields: false, Target: "?"})
+					return true
 				}
 				if _, dup := decoders[id.Name]; dup {
-					refuse("%s:%s: decoder variable %s assigned twice", file, name, id.Name)
+					softRefuse("%s:%s: decoder variable %s assigned twice", file, name, id.Name)
+					out = append(out, site{File: file, Func: name, KnownFields: false, Target: "?"})
+					return true
 				}
 				decoders[id.Name] = &decoder{pos: x.Pos()}
 				bound[x.Rhs[0].(*ast.CallExpr)] = true
@@ -165,7 +169,9 @@ func sitesIn(file string, fd *ast.FuncDecl, alias string) []site {
 			return true
 		}
 		if isPkgCall(call, alias, "NewDecoder") && !bound[call] {
-			refuse("%s:%s: yaml.NewDecoder result is not bound to a local variable", file, name)
+			softRefuse("%s:%s: yaml.NewDecoder result is not bound to a local variable", file, name)
+			out = append(out, site{File: file, Func: name, KnownFields: false, Target: "?"})
+			return true
 		}
 		if isPkgCall(call, alias, "Unmarshal") {
 			target := "?"
@@ -196,7 +202,7 @@ func sitesIn(file string, fd *ast.FuncDecl, alias string) []site {
 					return true
 				}
 			}
-			refuse("%s:%s: KnownFields called with a non-literal or false argument", file, name)
+			softRefuse("%s:%s: KnownFields called with a non-literal or false argument", file, name)
 		case "Decode":
 			target := "?"
 			if len(call.Args) == 1 {
@@ -205,7 +211,8 @@ func sitesIn(file string, fd *ast.FuncDecl, alias string) []site {
 			strict := d.strict != 0 && d.strict < call.Pos() && strictUnconditional(fd, d.strict)
 			out = append(out, site{File: file, Func: name, KnownFields: strict, Target: target})
 		default:
-			refuse("%s:%s: unknown decoder method %s", file, name, sel.Sel.Name)
+			softRefuse("%s:%s: unknown decoder method %s", file, name, sel.Sel.Name)
+			out = append(out, site{File: file, Func: name, KnownFields: false, Target: "?"})
 		}
 		return true
 	})
@@ -217,7 +224,8 @@ func sitesIn(file string, fd *ast.FuncDecl, alias string) []site {
 			}
 		}
 		if !used {
-			refuse("%s:%s: decoder %s is never used with Decode in this function (escapes?)", file, name, v)
+			softRefuse("%s:%s: decoder %s is never used with Decode in this function (escapes?)", file, name, v)
+			out = append(out, site{File: file, Func: name, KnownFields: false, Target: "?"})
 		}
 	}
 	return out
@@ -248,58 +256,61 @@ func unionArms(path, fn string) []string {
 	if err != nil {
 		refuse("parse %s: %v", path, err)
 	}
+	bad := func(format string, a ...any) []string {
+		softRefuse(format, a...)
+		return nil
+	}
 	for _, decl := range f.Decls {
 		fd, ok := decl.(*ast.FuncDecl)
 		if !ok || fd.Body == nil || funcName(fd) != fn {
 			continue
 		}
 		if fd.Recv == nil || len(fd.Recv.List[0].Names) != 1 {
-			refuse("%s: receiver of %s is unnamed", path, fn)
+			return bad("%s: receiver of %s is unnamed", path, fn)
 		}
 		recv := fd.Recv.List[0].Names[0].Name
 		var fields []string
 		n := len(fd.Body.List)
 		if n == 0 {
-			refuse("%s: %s has an empty body", path, fn)
+			return bad("%s: %s has an empty body", path, fn)
 		}
 		for i, st := range fd.Body.List {
 			if i == n-1 {
 				ret, ok := st.(*ast.ReturnStmt)
 				if !ok || len(ret.Results) != 2 {
-					refuse("%s: %s does not end in `return x, err`", path, fn)
+					return bad("%s: %s does not end in `return x, err`", path, fn)
 				}
 				call, ok := ret.Results[1].(*ast.CallExpr)
 				if !ok {
-					refuse("%s: %s: final error is not a constructor call", path, fn)
+					return bad("%s: %s: final error is not a constructor call", path, fn)
 				}
 				s := exprString(call.Fun)
 				if s != "fmt.Errorf" && s != "errors.New" {
-					refuse("%s: %s: final error built by %s", path, fn, s)
+					return bad("%s: %s: final error built by %s", path, fn, s)
 				}
 				break
 			}
 			ifs, ok := st.(*ast.IfStmt)
 			if !ok || ifs.Init != nil || ifs.Else != nil {
-				refuse("%s: %s: statement %d is not a plain `if`", path, fn, i)
+				return bad("%s: %s: statement %d is not a plain `if`", path, fn, i)
 			}
 			be, ok := ifs.Cond.(*ast.BinaryExpr)
 			if !ok || be.Op != token.NEQ || exprString(be.Y) != "nil" {
-				refuse("%s: %s: condition %d is not `x.F != nil`", path, fn, i)
+				return bad("%s: %s: condition %d is not `x.F != nil`", path, fn, i)
 			}
 			sel, ok := be.X.(*ast.SelectorExpr)
 			if !ok || exprString(sel.X) != recv {
-				refuse("%s: %s: condition %d does not test a receiver field", path, fn, i)
+				return bad("%s: %s: condition %d does not test a receiver field", path, fn, i)
 			}
 			if len(ifs.Body.List) == 0 {
-				refuse("%s: %s: arm %d is empty", path, fn, i)
+				return bad("%s: %s: arm %d is empty", path, fn, i)
 			}
 			if _, ok := ifs.Body.List[len(ifs.Body.List)-1].(*ast.ReturnStmt); !ok {
-				refuse("%s: %s: arm %d does not end in a return", path, fn, i)
+				return bad("%s: %s: arm %d does not end in a return", path, fn, i)
 			}
 			fields = append(fields, sel.Sel.Name)
 		}
 		return fields
 	}
-	refuse("%s: function %s not found", path, fn)
-	return nil
+	return bad("%s: function %s not found", path, fn)
 }
